@@ -1,4 +1,5 @@
 import DvidModel.Lemmas.Ann2
+import DvidModel.Model.AnnLabel
 /-
   C13 — Annotation indexes are views of one element set.
   Proved here over a mirror of the block store and the per-tag index: `Elements.add` keeps positions distinct,
@@ -6,7 +7,9 @@ import DvidModel.Lemmas.Ann2
   of elements (through addTagDelta / modifyTagElements, incl. overwriting a position with other tags), a delete
   and a move to a free position each keep the invariant "every tag list holds exactly the relationship-free
   copies of the elements that carry the tag, once each"; hence so does every history of such requests.
-  The per-body lists, spatial queries, relationship rewrites, the synced counts and the label-volume events are
+  The per-body lists under the label events merge and cleave are proved to stay exactly the elements on each body
+  (`mergeSync_inv`, `cleaveSync_inv`, over regenerated shape facts of sync.go).  Per-body lists under element
+  edits and supervoxel splits, spatial queries, relationship rewrites and the synced counts are
   decided by the harness against an element-set oracle and the model is compared with the server's tag and
   all-elements answers after every request (DESIGN.md §4 C13).
 -/
@@ -260,5 +263,190 @@ def e1' : Elem := ⟨(1, 2, 3), 3, ["t3"], "c", []⟩
 def demoReqs : List Req := [.store [e1, e2], .store [e1'], .move (-70, 0, 64) (5, 5, 5)]
 example : ((runReqs init demoReqs).tagIdx "t2").map (·.pos) = [(5, 5, 5)] ∧
     ((runReqs init demoReqs).tagIdx "t1") = [] ∧ ((runReqs init demoReqs).tagIdx "t3").map (·.prop) = ["c"] := by decide +kernel
+
+/-! ### the per-body lists under label events of the synced volume -/
+
+section LabelEvents
+open Dvid.AnnLabel
+
+/-- every body's list holds exactly the relationship-free copies of the elements on a voxel of that body -/
+def LInv (s : LSt) : Prop :=
+  ∀ b x, b ≠ 0 → (x ∈ s.idx b ↔ ∃ e ∈ s.elems, s.labelOf e.pos = b ∧ x = nr e)
+
+/-- **merge**: after `mergeLabels` the target's list is the union of the lists, the merged bodies have none, and
+    every list is again exactly the elements on that body under the new mapping -/
+theorem mergeSync_inv (s : LSt) (target : Nat) (ms : List Nat) (ht : target ≠ 0) (htm : target ∉ ms)
+    (h0 : (0 : Nat) ∉ ms) (h : LInv s) : LInv (mergeSync s target ms) := by
+  intro b x hb
+  have _ := ht
+  -- the new label of a position
+  have hlab : ∀ p, (mergeSync s target ms).labelOf p = if s.labelOf p ∈ ms then target else s.labelOf p := by
+    intro p; rfl
+  have hidx : ∀ c, (mergeSync s target ms).idx c =
+      if c = target then s.idx target ++ ms.flatMap s.idx else if c ∈ ms then [] else s.idx c := by
+    intro c; unfold mergeSync; simp only [Gen.annMergeAppendsAndDeletes, ↓reduceIte]
+  have helems : (mergeSync s target ms).elems = s.elems := rfl
+  rw [hidx, helems]
+  simp only [hlab]
+  by_cases hbt : b = target
+  · subst hbt
+    simp only [↓reduceIte, List.mem_append, List.mem_flatMap]
+    constructor
+    · rintro (hx | ⟨m, hm, hx⟩)
+      · obtain ⟨e, he, hl, rfl⟩ := (h b x hb).1 hx
+        exact ⟨e, he, by rw [hl, if_neg htm], rfl⟩
+      · have hm0 : m ≠ 0 := fun e => h0 (e ▸ hm)
+        obtain ⟨e, he, hl, rfl⟩ := (h m x hm0).1 hx
+        exact ⟨e, he, by rw [hl, if_pos hm], rfl⟩
+    · rintro ⟨e, he, hl, rfl⟩
+      by_cases hc : s.labelOf e.pos ∈ ms
+      · right
+        have hm0 : s.labelOf e.pos ≠ 0 := fun e0 => h0 (e0 ▸ hc)
+        exact ⟨s.labelOf e.pos, hc, (h _ _ hm0).2 ⟨e, he, rfl, rfl⟩⟩
+      · left
+        rw [if_neg hc] at hl
+        exact (h b _ hb).2 ⟨e, he, hl, rfl⟩
+  · rw [if_neg hbt]
+    by_cases hbm : b ∈ ms
+    · rw [if_pos hbm]
+      simp only [List.not_mem_nil, false_iff]
+      rintro ⟨e, _, hl, _⟩
+      by_cases hc : s.labelOf e.pos ∈ ms
+      · rw [if_pos hc] at hl; exact hbt hl.symm
+      · rw [if_neg hc] at hl; exact hc (hl ▸ hbm)
+    · rw [if_neg hbm, h b x hb]
+      constructor
+      · rintro ⟨e, he, hl, rfl⟩
+        exact ⟨e, he, by rw [hl, if_neg hbm], rfl⟩
+      · rintro ⟨e, he, hl, rfl⟩
+        by_cases hc : s.labelOf e.pos ∈ ms
+        · rw [if_pos hc] at hl; exact absurd hl.symm hbt
+        · rw [if_neg hc] at hl; exact ⟨e, he, hl, rfl⟩
+
+/-- **cleave**: after `cleaveLabels` the elements whose position lies in a cleaved supervoxel are listed under the
+    new body and no longer under the target — also when that empties the target's list -/
+theorem cleaveSync_inv (s : LSt) (target cleaved : Nat) (svs : List Nat) (ht : target ≠ 0) (hc0 : cleaved ≠ 0)
+    (hne : cleaved ≠ target) (hfresh : ∀ sv, s.body sv ≠ cleaved)
+    (hsvs : ∀ sv ∈ svs, s.body sv = target) (h : LInv s) : LInv (cleaveSync s target cleaved svs) := by
+  intro b x hb
+  have hT := h target
+  have hempty : (s.idx target).isEmpty = true → ∀ e ∈ s.elems, s.labelOf e.pos ≠ target := by
+    intro he e hee hl
+    have := (hT (nr e) ht).2 ⟨e, hee, hl, rfl⟩
+    simp only [List.isEmpty_iff] at he
+    rw [he] at this; cases this
+  have hcl : s.idx cleaved = [] := by
+    apply List.eq_nil_iff_forall_not_mem.2
+    intro y hy
+    obtain ⟨e, _, hl, _⟩ := (h cleaved y hc0).1 hy
+    exact hfresh _ hl
+  have hlab : ∀ p, (cleaveSync s target cleaved svs).labelOf p =
+      if s.svAt p ∈ svs then cleaved else s.labelOf p := by
+    intro p
+    show (if s.svAt p ∈ svs ∧ s.body (s.svAt p) = target then cleaved else s.body (s.svAt p)) = _
+    by_cases hin : s.svAt p ∈ svs
+    · rw [if_pos ⟨hin, hsvs _ hin⟩, if_pos hin]
+    · rw [if_neg (fun hh => hin hh.1), if_neg hin]; rfl
+  have helems : (cleaveSync s target cleaved svs).elems = s.elems := rfl
+  rw [helems]
+  simp only [hlab]
+  have hon : ∀ e ∈ s.elems, s.svAt e.pos ∈ svs → s.labelOf e.pos = target := fun e _ hin => hsvs _ hin
+  -- membership in the two filtered lists
+  have hmoved : ∀ y, y ∈ (s.idx target).filter (fun e => decide (s.svAt e.pos ∈ svs)) ↔
+      ∃ e ∈ s.elems, s.svAt e.pos ∈ svs ∧ y = nr e := by
+    intro y
+    simp only [List.mem_filter, decide_eq_true_eq]
+    constructor
+    · rintro ⟨hy, hs⟩
+      obtain ⟨e, he, _, rfl⟩ := (hT y ht).1 hy
+      exact ⟨e, he, hs, rfl⟩
+    · rintro ⟨e, he, hs, rfl⟩
+      exact ⟨(hT _ ht).2 ⟨e, he, hon e he hs, rfl⟩, hs⟩
+  have hkept : ∀ y, y ∈ (s.idx target).filter (fun e => !decide (s.svAt e.pos ∈ svs)) ↔
+      ∃ e ∈ s.elems, s.labelOf e.pos = target ∧ s.svAt e.pos ∉ svs ∧ y = nr e := by
+    intro y
+    simp only [List.mem_filter, Bool.not_eq_true', decide_eq_false_iff_not]
+    constructor
+    · rintro ⟨hy, hs⟩
+      obtain ⟨e, he, hl, rfl⟩ := (hT y ht).1 hy
+      exact ⟨e, he, hl, hs, rfl⟩
+    · rintro ⟨e, he, hl, hs, rfl⟩
+      exact ⟨(hT _ ht).2 ⟨e, he, hl, rfl⟩, hs⟩
+  have hidx : (cleaveSync s target cleaved svs).idx b =
+      if (s.idx target).isEmpty then s.idx b
+      else if b = cleaved then
+        (if ((s.idx target).filter (fun e => decide (s.svAt e.pos ∈ svs))).isEmpty then s.idx cleaved
+         else (s.idx target).filter (fun e => decide (s.svAt e.pos ∈ svs)))
+      else if b = target then
+        (if ((s.idx target).filter (fun e => !decide (s.svAt e.pos ∈ svs))).isEmpty then []
+         else (s.idx target).filter (fun e => !decide (s.svAt e.pos ∈ svs)))
+      else s.idx b := by
+    unfold cleaveSync; simp only [Gen.annCleaveDeletesEmptiedTarget, ↓reduceIte]
+  rw [hidx]
+  by_cases hte : (s.idx target).isEmpty = true
+  · rw [if_pos hte, h b x hb]
+    constructor
+    · rintro ⟨e, he, hl, rfl⟩
+      refine ⟨e, he, ?_, rfl⟩
+      by_cases hin : s.svAt e.pos ∈ svs
+      · exact absurd (hon e he hin) (hempty hte e he)
+      · rw [if_neg hin]; exact hl
+    · rintro ⟨e, he, hl, rfl⟩
+      refine ⟨e, he, ?_, rfl⟩
+      by_cases hin : s.svAt e.pos ∈ svs
+      · exact absurd (hon e he hin) (hempty hte e he)
+      · rw [if_neg hin] at hl; exact hl
+  · rw [if_neg hte]
+    by_cases hbc : b = cleaved
+    · subst hbc
+      rw [if_pos rfl]
+      have key : x ∈ (s.idx target).filter (fun e => decide (s.svAt e.pos ∈ svs)) ↔
+          ∃ e ∈ s.elems, (if s.svAt e.pos ∈ svs then b else s.labelOf e.pos) = b ∧ x = nr e := by
+        rw [hmoved]
+        constructor
+        · rintro ⟨e, he, hs, rfl⟩; exact ⟨e, he, by rw [if_pos hs], rfl⟩
+        · rintro ⟨e, he, hl, rfl⟩
+          by_cases hin : s.svAt e.pos ∈ svs
+          · exact ⟨e, he, hin, rfl⟩
+          · rw [if_neg hin] at hl; exact absurd hl (hfresh _)
+      by_cases hme : ((s.idx target).filter (fun e => decide (s.svAt e.pos ∈ svs))).isEmpty = true
+      · rw [if_pos hme, hcl]
+        simp only [List.isEmpty_iff] at hme
+        rw [hme] at key
+        exact key
+      · rw [if_neg hme]; exact key
+    · rw [if_neg hbc]
+      by_cases hbt : b = target
+      · subst hbt
+        rw [if_pos rfl]
+        have key : x ∈ (s.idx b).filter (fun e => !decide (s.svAt e.pos ∈ svs)) ↔
+            ∃ e ∈ s.elems, (if s.svAt e.pos ∈ svs then cleaved else s.labelOf e.pos) = b ∧ x = nr e := by
+          rw [hkept]
+          constructor
+          · rintro ⟨e, he, hl, hs, rfl⟩; exact ⟨e, he, by rw [if_neg hs]; exact hl, rfl⟩
+          · rintro ⟨e, he, hl, rfl⟩
+            by_cases hin : s.svAt e.pos ∈ svs
+            · rw [if_pos hin] at hl; exact absurd hl hne
+            · rw [if_neg hin] at hl; exact ⟨e, he, hl, hin, rfl⟩
+        by_cases hke : ((s.idx b).filter (fun e => !decide (s.svAt e.pos ∈ svs))).isEmpty = true
+        · rw [if_pos hke]
+          simp only [List.isEmpty_iff] at hke
+          rw [hke] at key
+          exact key
+        · rw [if_neg hke]; exact key
+      · rw [if_neg hbt, h b x hb]
+        constructor
+        · rintro ⟨e, he, hl, rfl⟩
+          refine ⟨e, he, ?_, rfl⟩
+          by_cases hin : s.svAt e.pos ∈ svs
+          · exact absurd ((hon e he hin).symm.trans hl) (fun e0 => hbt e0.symm)
+          · rw [if_neg hin]; exact hl
+        · rintro ⟨e, he, hl, rfl⟩
+          refine ⟨e, he, ?_, rfl⟩
+          by_cases hin : s.svAt e.pos ∈ svs
+          · rw [if_pos hin] at hl; exact absurd hl.symm hbc
+          · rw [if_neg hin] at hl; exact hl
+
+end LabelEvents
 
 end Dvid.Props.C13
